@@ -41,6 +41,33 @@ pub fn catalogue() -> Vec<(String, &'static str)> {
             v.push((p.fen6(false), "pawn on a back rank"));
         }
     }
+    // castling rights that the board does not support (the reader takes the field at face value: stale rights, X-FEN /
+    // Chess960 set-ups): every non-empty rights subset x the white king on every square x the black king on three
+    // squares x {no rooks, rooks on the four corners}; and the colour mirror
+    for wk in 0..64u8 {
+        for bk in [sq(7, 4), sq(7, 7), sq(4, 0)] {
+            if wk == bk || crate::universe::adjacent(wk, bk) {
+                continue;
+            }
+            for rooks in [false, true] {
+                let mut p = Pos::empty();
+                p.b[wk as usize] = WK;
+                p.b[bk as usize] = BK;
+                if rooks {
+                    for (s, c) in [(sq(0, 0), code(R, true)), (sq(0, 7), code(R, true)), (sq(7, 0), code(R, false)), (sq(7, 7), code(R, false))] {
+                        if p.b[s as usize] == 0 {
+                            p.b[s as usize] = c;
+                        }
+                    }
+                }
+                for rights in 1..16u8 {
+                    p.rights = rights;
+                    v.push((p.fen6(false), "castling rights the board does not support"));
+                    v.push((p.mirror().fen6(false), "castling rights the board does not support"));
+                }
+            }
+        }
+    }
     // border-queen family: every prefix of the 26 free border squares filled with white queens
     let border: Vec<u8> = {
         let mut b = vec![];
@@ -225,7 +252,7 @@ pub fn mobility_case(fen: &str, why: &str, acc: &mut Acc) {
             (a, b)
         });
         acc.transitions += 1;
-        if r.is_ok() && why == "pawn on a back rank" {
+        if r.is_ok() && (why == "pawn on a back rank" || why == "castling rights the board does not support") {
             let mut t = new_table();
             let run = run_search(&g, &mut t, &SearchCfg { max_depth: Some(2), stop_at: u64::MAX, depth_monitor: u32::MAX, watchdog: 2_000_000, tableless: false });
             if let Err(pn) = &run.result {
@@ -395,6 +422,9 @@ pub fn run(tier: &str, seed: i64) -> Outcome {
     let mut strings: Vec<(String, &'static str)> = vec![];
     for (f, why) in &cat {
         strings.push((f.clone(), *why));
+        if *why == "castling rights the board does not support" {
+            continue;
+        }
         let two = !q && (*why == "218-move record position" || *why == "nine queens, legal material");
         for e in edits(f, two) {
             strings.push((e, *why));
